@@ -49,6 +49,9 @@ type rtClient struct {
 	ver     byte
 	conn    *broker.Conn
 	nextPid uint16
+	hold    bool     // acknowledgements of received PUBLISH packets are withheld until ackOldest
+	unacked []uint16 // packet ids of received, not yet acknowledged PUBLISH packets (oldest first)
+	qosOf   map[uint16]byte
 }
 
 type rtInlineEv struct {
@@ -65,6 +68,8 @@ type rtWorld struct {
 	cfg     sx.V
 	prefix  sx.L
 	clients map[string]*rtClient
+	holds   map[string]bool   // client ids whose acknowledgements are withheld
+	recvMax map[string]uint16 // Receive Maximum sent in CONNECT (MQTT 5)
 	mu      sync.Mutex
 	inline  []rtInlineEv
 	out     *sx.Out
@@ -102,7 +107,7 @@ func newWorld(out *sx.Out, maxqos byte, ravail bool, deny [][2]string) *rtWorld 
 	acl := func(cl *mqtt.Client, topic string, write bool) bool {
 		return write || !denySet[[2]string{cl.ID, topic}]
 	}
-	w := &rtWorld{clients: map[string]*rtClient{}, out: out}
+	w := &rtWorld{clients: map[string]*rtClient{}, holds: map[string]bool{}, recvMax: map[string]uint16{}, out: out}
 	w.b = broker.New(broker.Opts{Caps: caps, InlineClient: true, Auth: broker.AllowAuth, ACL: acl})
 	w.cfg = sx.L{sx.N(uint64(maxqos)), sx.Bool(ravail), denySx}
 	return w
@@ -130,6 +135,13 @@ func (w *rtWorld) settle() (map[string][]packets.Packet, []byte, []string) {
 				switch p.FixedHeader.Type {
 				case packets.Publish:
 					got[cl.id] = append(got[cl.id], p)
+					if cl.hold && p.FixedHeader.Qos > 0 {
+						if _, seen := cl.qosOf[p.PacketID]; !seen {
+							cl.unacked = append(cl.unacked, p.PacketID)
+						}
+						cl.qosOf[p.PacketID] = p.FixedHeader.Qos
+						continue
+					}
 					if p.FixedHeader.Qos == 1 {
 						w.b.SendPacket(cl.conn, broker.AckPk(packets.Puback, p.PacketID, 0))
 						progress = true
@@ -227,8 +239,14 @@ func (w *rtWorld) connect(id string, ver byte, clean, persist, rpi0 bool) {
 		persist = !clean
 		rpi0 = false
 	}
+	if rm := w.recvMax[id]; rm > 0 && ver == 5 {
+		pk.Properties.ReceiveMaximum = rm
+	}
 	c := w.b.Connect("10.0.0.1:1", pk)
-	w.clients[id] = &rtClient{id: id, ver: ver, conn: c, nextPid: 1}
+	w.clients[id] = &rtClient{id: id, ver: ver, conn: c, nextPid: 1, hold: w.holds[id], qosOf: map[uint16]byte{}}
+	if w.holds[id] {
+		w.clients[id].nextPid = 30000 // keep the client's own packet ids away from the broker's unacknowledged ones (one id map, C10)
+	}
 	w.emit(sx.L{sx.N(1), sx.S(id), sx.N(uint64(ver)), sx.Bool(clean), sx.Bool(persist), sx.Bool(rpi0)})
 }
 
@@ -237,6 +255,24 @@ func (w *rtWorld) disconnect(id string) {
 	w.b.SendPacket(c.conn, broker.DisconnectPk(0))
 	w.emit(sx.L{sx.N(2), sx.S(id)})
 	c.conn = nil
+}
+
+// ackOldest acknowledges the oldest unacknowledged PUBLISH of a client whose acks are withheld
+// (PUBACK, or PUBREC; the PUBREL that follows is completed by settle) — op (9 c), no effect on routing.
+func (w *rtWorld) ackOldest(id string) {
+	c := w.clients[id]
+	if c == nil || c.conn == nil || len(c.unacked) == 0 {
+		return
+	}
+	pid := c.unacked[0]
+	c.unacked = c.unacked[1:]
+	ty := byte(packets.Puback)
+	if c.qosOf[pid] == 2 {
+		ty = packets.Pubrec
+	}
+	delete(c.qosOf, pid)
+	w.b.SendPacket(c.conn, broker.AckPk(ty, pid, 0))
+	w.emit(sx.L{sx.N(9), sx.S(id)})
 }
 
 func (c *rtClient) pid() uint16 {
@@ -345,6 +381,16 @@ func engRoute(seed int64, tier string, args []string, out *sx.Out) {
 	rng := rand.New(rand.NewSource(seed))
 	if mode == "c04" {
 		rtProducts(rng, tier, out)
+		return
+	}
+	if mode == "c04f" {
+		n := 160
+		if tier == "thorough" {
+			n = 6000
+		}
+		for h := 0; h < n; h++ {
+			rtStored(rng, h, out)
+		}
 		return
 	}
 	hist, steps := 1200, 25
@@ -582,6 +628,91 @@ func rtProducts(rng *rand.Rand, tier string, out *sx.Out) {
 				}
 				w.close()
 			}
+		}
+	}
+}
+
+// rtStored: deliveries made from a STORED copy of the message — held back by the subscriber's Receive
+// Maximum and released by a later acknowledgement, kept for an offline persistent session and sent on
+// reconnection, resent with DUP on session resume because it was never acknowledged.  Every PUBLISH copy
+// a client receives is judged by the C04 specification (QoS, identifiers, retain flag) of the publish
+// with that payload; payloads are unique within a history.  Retain is unavailable, so that no retained
+// delivery mixes with the live ones while the retain flag / Retain As Published stays in play.
+func rtStored(rng *rand.Rand, h int, out *sx.Out) {
+	maxqos := byte(2)
+	if h%5 == 4 {
+		maxqos = 1
+	}
+	w := newWorld(out, maxqos, false, nil)
+	defer w.close()
+	w.holds["s"], w.holds["t"] = true, true
+	w.recvMax["s"] = uint16(1 + rng.Intn(2))
+	filters := []string{"a/b", "a/+", "a/#", "#"}
+	seq := 0
+	pub := func() {
+		seq++
+		w.publish("p", rtMsg{topic: "a/b", payload: "u" + string(rune('a'+seq/26)) + string(rune('a'+seq%26)),
+			qos: byte(1 + rng.Intn(2)), retain: rng.Intn(3) == 0})
+	}
+	subscribe := func(id string) {
+		perm := rng.Perm(len(filters))
+		n := 1 + rng.Intn(3)
+		for j := 0; j < n; j++ {
+			sid := 0
+			if rng.Intn(3) != 0 {
+				sid = 1 + rng.Intn(3)
+			}
+			w.subscribe(id, []rtSub{{filter: filters[perm[j]], qos: byte(1 + rng.Intn(2)), id: sid, rap: rng.Intn(3) == 0}})
+		}
+	}
+	w.connect("p", 5, true, false, false)
+	w.connect("s", 5, false, true, false) // MQTT 5, clean start 0, session expiry > 0, Receive Maximum 1-2
+	w.connect("t", 4, false, false, false) // MQTT 3.1.1 persistent session
+	subscribe("s")
+	subscribe("t")
+	live := func(id string) bool { c := w.clients[id]; return c != nil && c.conn != nil }
+	for i := 0; i < 26 && !w.hung; i++ {
+		switch k := rng.Intn(100); {
+		case k < 40:
+			pub()
+		case k < 70:
+			id := []string{"s", "t"}[rng.Intn(2)]
+			if live(id) {
+				w.ackOldest(id)
+			}
+		case k < 80:
+			id := []string{"s", "t"}[rng.Intn(2)]
+			if live(id) {
+				w.disconnect(id) // unacknowledged messages stay in flight; further publishes are stored
+			}
+		case k < 95:
+			for _, id := range []string{"s", "t"} {
+				if !live(id) {
+					ver := byte(5)
+					if id == "t" {
+						ver = 4
+					}
+					w.connect(id, ver, false, true, false) // resume: stored and unacknowledged messages are (re)sent
+					break
+				}
+			}
+		default:
+			id := []string{"s", "t"}[rng.Intn(2)]
+			if live(id) {
+				subscribe(id) // later publishes are judged by the subscriptions held when they are published
+			}
+		}
+	}
+	for _, id := range []string{"s", "t"} { // drain: reconnect and acknowledge everything that is left
+		if !live(id) && !w.hung {
+			ver := byte(5)
+			if id == "t" {
+				ver = 4
+			}
+			w.connect(id, ver, false, true, false)
+		}
+		for n := 0; n < 40 && !w.hung && len(w.clients[id].unacked) > 0; n++ {
+			w.ackOldest(id)
 		}
 	}
 }
